@@ -194,6 +194,12 @@ func (c *c07Case) Run(ctx *core.Ctx) {
 				return "true"
 			case c.Names == "implicit" && i == 1:
 				return "base" // the page names no layout: the first link is the default one
+			case c.Names == "dotted": // a dot inside the name is part of the name (post.v2 is layouts/post.v2.vuego)
+				return fmt.Sprintf("l%d.v2", i)
+			case c.Names == "dotted-html":
+				return fmt.Sprintf("l%d.min.html", i)
+			case c.Names == "subdir":
+				return fmt.Sprintf("v1.0/l%d", i)
 			}
 			return fmt.Sprintf("l%d", i)
 		}
@@ -210,6 +216,11 @@ func (c *c07Case) Run(ctx *core.Ctx) {
 				}
 			}
 			files["layouts/"+lname(i)+".vuego"] = c07Layout(fmt.Sprintf("l%d", i), next, "")
+			if strings.HasPrefix(c.Names, "dotted") {
+				// a decoy spelled like the name without what follows its dot
+				files[fmt.Sprintf("layouts/l%d.vuego", i)] = c07Layout(fmt.Sprintf("decoy%d", i), "none", "")
+				files[fmt.Sprintf("layouts/l%d.min.vuego", i)] = c07Layout(fmt.Sprintf("decoymin%d", i), "none", "")
+			}
 			if c.Twice {
 				files["layouts/"+lname(i)+".vuego"] = strings.Replace(files["layouts/"+lname(i)+".vuego"], `<section v-html="content"></section>`, `<section v-html="content"></section><aside v-html="content"></aside><p>some more text that is repeated on every lap of the chain</p>`, 1)
 			}
@@ -456,7 +467,7 @@ func init() {
 				emit(&c07Case{Part: "chain", Len: n, Cycle: true, Twice: true})
 			}
 			emit(&c07Case{Part: "chain", Len: 1, Names: "selfbase"})
-			for _, names := range []string{"num", "bool"} {
+			for _, names := range []string{"num", "bool", "dotted", "dotted-html", "subdir"} {
 				for _, n := range []int{2, 3, 5} {
 					emit(&c07Case{Part: "chain", Len: n, Names: names})
 				}
